@@ -125,7 +125,12 @@ pub fn apply(base: &Base, ops: &[Value]) -> Vec<u8> {
                         "late" => format!("{}]{}[{}]", name, sub, sub),
                         _ => format!("{}[{}]x", name, sub),
                     };
-                    lines[i] = [nk.into_bytes(), vec![b':'], v].concat();
+                    // "nocolon" / "semicolon": the key kept, the separating colon dropped or turned into another character (one flipped bit)
+                    lines[i] = match vs(&op["how"]) {
+                        "nocolon" => [k.clone(), v].concat(),
+                        "semicolon" => [k.clone(), vec![b';'], v].concat(),
+                        _ => [nk.into_bytes(), vec![b':'], v].concat(),
+                    };
                 }
             }
             "mbchar" => {
